@@ -937,6 +937,14 @@ func cmdDkg(prop string, args []string) int {
 		}
 		files = append(files, file)
 	}
+	if prop == "C12" {
+		pf, err := realTransportPrepare(ctx, stats)
+		if err != nil {
+			fmt.Fprintln(os.Stderr, "real transport:", err)
+			return 2
+		}
+		monFail = append(monFail, pf...)
+	}
 	if prop == "C13" {
 		nf, arLines, nn, err := realTransportSwaps(ctx, cf.g63, stats)
 		if err != nil {
